@@ -3,6 +3,10 @@
 import json, subprocess
 
 CLAIMS = {
+ "C05": dict(
+   text="All-or-nothing postconditions on the real opETX and opConvert (every exit: one status word replaces the operands; status 1 => exactly one ETX appended and the sender debited exactly value+fee; status 0 => no ETX and no debit; no credit ever), with balances tracked as ghost debit/credit counters through the vm.StateDB interface contract. Discharged per exit and per clause by SMT from go/ssa of the working tree, for all stack contents, balances and fork numbers.",
+   note="Assumed (trusted) contracts: vm.StateDB.SubBalance/AddBalance ghost accounting, ContractRef.Address is a function of the reference, CanTransfer/CheckIfEtxEligible hooks are read-only, rlp.DecodeBytes frame; library models for uint256/big.Int. Not yet under contract: CreateETX/Call, UnwrapQi, ClaimCoinbaseLockup, receipt hand-off.",
+   design="4 (C05)", technique="contract-based deductive verification: per-exit weakest-precondition VCs from go/ssa with ghost state, discharged by z3/cvc5"),
  "C16": dict(
    text="Contracts on the real address constructors/predicates of package common (IsInChainScope, Location.Context/BytePrefix, ...) discharged for all inputs by SMT from go/ssa of the working tree: classification agrees with the single spec predicate internal(a,loc) <=> ctx(loc)=ZONE and a[0]=prefix(loc). Per-constructor, unbounded in the input.",
    note="Trusted: gvc SSA->SMT translation, solvers, library models (math/big, uint256), inferred frames for calls without contract. Not decided: call sites outside the listed functions.",
